@@ -40,9 +40,12 @@ def judge_c16(plan, result):
           "unexpected_rejections": {}, "transitions": {}, "listing_checks": 0, "skipped": 0}
     vocab = plan.get("vocab", [])
     model = {}  # obj -> model instance; removed once the object left the specified domain
+    after_reject = {}
     for ev in result["log"]:
         op, res = ev["op"], ev["res"]
         obj = op.get("obj")
+        if op["op"] == "call" and op.get("cont") and res.get("r") == "exc":
+            after_reject[obj] = True
         if op["op"] == "new":
             if res["r"] == "ok":
                 model[obj] = (models.LayerDefModel() if op["cls"] == "LayeredArchitecture"
@@ -60,8 +63,8 @@ def judge_c16(plan, result):
             if not is_arch and op["m"] == "based_on":
                 ref = (op.get("a") or [{}])[0]
                 amdl = model.get(ref.get("$obj")) if isinstance(ref, dict) else None
-                if not isinstance(amdl, models.LayerDefModel) or amdl.pending() or not amdl.layers:
-                    # a rule based on an unfinished, rejected or empty definition: C16 says
+                if not isinstance(amdl, models.LayerDefModel) or amdl.pending():
+                    # a rule based on an unfinished or rejected definition: C16 says
                     # nothing about it (only reachable through plan minimisation)
                     st["skipped"] += 1
                     del model[obj]
@@ -75,8 +78,14 @@ def judge_c16(plan, result):
                 st["must_reject"] += 1
                 if res["r"] == "exc" and not res.get("assertion"):
                     st["rejected_as_required"] += 1
+                    if op.get("cont"):
+                        # the rejected call supplied nothing: the definition / rule is what it
+                        # was, and the caller goes on using it
+                        st["continued_after_rejection"] = st.get("continued_after_rejection", 0) + 1
+                        continue
                 else:
-                    viol.append({"inv": "J1", "sig": f"C16/J1/{reason}", "step": ev["i"],
+                    after = "/after-rejected-call" if after_reject.get(obj) else ""
+                    viol.append({"inv": "J1", "sig": f"C16/J1/{reason}{after}", "step": ev["i"],
                                  "detail": {"call": [op["m"], op.get("a")], "obj": obj,
                                             "model_state": mdl.shape(), "got": res,
                                             "want": "configuration error at this call"}})
